@@ -61,9 +61,17 @@ RUSE = ['C13/rcs380.send_command', 'C13/check_crc_a']
 contract(R + 'Device.send_cmd_recv_rsp', 'C13',
          dict(self=RDEV(), target=RTGT(), data=Bytes(0, 262, mutable=True), timeout=OneOf(Const(0.1), None)),
          name='C13/rcs380.send_cmd_recv_rsp', raises=DOC, use=RUSE)
+# which documented error: the status word of the chip's TgCommRF response (octets 3..6, little endian) is a
+# bit set; field loss (RF_OFF 0400h) is BrokenLinkError whatever else is set, else a receive timeout (0080h) is
+# TimeoutError, anything else TransmissionError
+ST = 'call_ret("C13/rcs380.send_command")'
+RDOC = dict(DOC)
+RDOC['nfc.clf:BrokenLinkError'] = ['(%s[4] // 4) %% 2 == 1' % ST]
+RDOC['nfc.clf:TimeoutError'] = ['(%s[4] // 4) %% 2 == 0 and %s[3] >= 128' % (ST, ST)]
+RDOC['nfc.clf:TransmissionError'] = ['(%s[4] // 4) %% 2 == 0 and %s[3] < 128' % (ST, ST)]
 contract(R + 'Device.send_rsp_recv_cmd', 'C13',
          dict(self=RDEV(), target=LTGT(), data=Opt(Bytes(0, 262, mutable=True)), timeout=OneOf(Const(0.1), None)),
-         name='C13/rcs380.send_rsp_recv_cmd', raises=DOC, use=RUSE)
+         name='C13/rcs380.send_rsp_recv_cmd', raises=RDOC, use=RUSE)
 
 # ---------------------------------------------------------------- frontend
 DM = lambda: Obj('models.clf_models:FaultyDevice', _partial=False)   # noqa
